@@ -91,3 +91,12 @@ loop:
 		}
 	}
 }
+
+// an implementer, so that interface calls resolve inside the control module
+type counter struct{ depth *int }
+
+func (c counter) Ok(b byte) bool { return b != 0 }
+func (c counter) Step(b byte)    { *c.depth++ }
+func (c counter) Backstep()      { *c.depth-- }
+
+var _ Walker = counter{}
